@@ -37,25 +37,27 @@ Proof. vm_compute. reflexivity. Qed.
 (* everything that killed the receive loop of the pinned tree, with a Warnings channel of capacity 1
    that nobody drains: an undecodable body, bad_msg_notification, an rpc_result for an unknown id, an
    update nobody handles, a frame the transport refuses, a container (with an empty container, a doubly
-   gzip-packed pong, and an undecodable item that makes the loop abandon the rest), then the server
-   closes the connection.  The loop reconnects (generation 2, no plain frame) and a call completes.
-   6 warnings: 1 queued, 5 dropped; 5 frames ended in an error. *)
+   gzip-packed pong, an undecodable item, and an update AFTER it: still processed and acknowledged), then the
+   server closes the connection.  The unknown rpc_result (odd seq_no) is acknowledged although nobody waits
+   for it.  The loop reconnects (generation 2, no plain frame) and a call completes.
+   7 warnings: 1 queued, 6 dropped; 5 messages ended in an error; acks for 9 and 25. *)
 Definition cfg_full_warn := {| cf_warn := WBuf 1 0; cf_handler := false; cf_keyed := true |}.
 Definition ex_hostile : list label2 := [
   L1 (LSrv (3, 2, BGarbage)); r 0; r 0;
   L1 (LSrv (7, 2, BBadMsg 40)); r 0; r 0;
-  L1 (LSrv (9, 1, BResult 40 false KObj 1)); r 0; r 0;
+  L1 (LSrv (9, 1, BResult 40 false KObj 1)); r 0; r 0; r 10; r 0; r 0; r 0;
   L1 (LSrv (11, 2, BUpdate)); r 0; r 0;
   L1 (LSrv (0, 0, BGarbage)); r 0;
   L1 (LSrv (13, 2, BContainer [(15, 2, BContainer []); (19, 2, BGzip (BGzip BPong)); (21, 2, BGarbage); (25, 1, BUpdate)]));
-  r 0; r 0; r 0; r 0; r 0;
+  r 0; r 0; r 0; r 0; r 0; r 0; r 11; r 0; r 0; r 0;
   L1 LClose; r 0; r 0;
-  L1 (LCall 0 false); c 0 10; c 0 0; c 0 0;
-  L1 (LSrv (5, 0, BResult 40 false KObj 99)); r 0; r 0; r 0].
+  L1 (LCall 0 false); c 0 12; c 0 0; c 0 0;
+  L1 (LSrv (5, 0, BResult 48 false KObj 99)); r 0; r 0; r 0].
 
 Example ex_hostile_ok : option_map show (run2 (init2 cfg_full_warn) ex_hostile) =
-  Some ([(0%nat, 1%nat, 40, RetVal KObj 99)], RRead, [], 0, [], [], [(40, 1, 0, WReq 0 1 false)], [],
-        (1, 5, 0, 5, 2, 0, 0)%nat).
+  Some ([(0%nat, 1%nat, 48, RetVal KObj 99)], RRead, [], 0, [], [],
+        [(48, 5, 0, WReq 0 1 false); (44, 2, 0, WAck 25); (40, 0, 0, WAck 9)], [],
+        (1, 6, 0, 5, 2, 0, 0)%nat).
 Proof. vm_compute. reflexivity. Qed.
 
 (* fresh session: nothing is enabled before the key exchange (3 plain frames, salt 55 stored); a custom
